@@ -30,6 +30,14 @@ on the values that can reach it from the selected functions):
 * reads of the world outside the translated functions (`sys.version_info`, `platform_tags()`, …) come from an
   explicit environment table `Env`; a key that is not in the table is `PyRtEnvMissing`.
 * an exception is the *name of its class*; `except C` catches the classes listed under `C` in `bases`.
+* `dict`s are association lists in insertion order with `==` on keys (the keys that occur are `str`); `dict.update` only
+  with a dict argument; `PyVal.eq` does not compare dicts.
+* functions of the library that are modelled elsewhere are reached through an `Oracle` (a function of the call's name
+  and arguments, so that theorems can quantify over it; the driver builds one from a table recorded on the real code).
+* recursion and `while` loops are bounded by fuel taken from the size of the arguments (`fuelOf`); running out is
+  `RecursionError`.  The equivalence theorems show that this never happens on the values of the model's types.
+* `hash_sym` keeps `hash(v)` symbolic as `("__hash__", v)`; `src.call` patches `hash` in the module under test alike.
+* `str.replace` with an empty pattern is outside the run-time.
 -/
 namespace PyRt
 open Py
